@@ -25,3 +25,8 @@ LEVEL_NOTE["C10"] = "Trusts the byte-slice model and scripted readers/writers; p
 LEVEL_TEXT["C11"] = ("Exploration: a rapid state machine drives linkedlist.Buffer through all 11 operations with segment-boundary-biased sizes and scripted readers/writers and compares "
                      "content, Buffered, Len and IsEmpty with a list-of-segments model after every step; pushed slices are scribbled over after the call to check copy semantics.")
 LEVEL_NOTE["C11"] = "Trusts the segment-list model; PeekWithBytes is checked strictly for requests within the list's own content and leniently (error or correct bytes) for requests that need the extra slices."
+
+LEVEL_TEXT["C12"] = ("Exploration: rapid state machines over the byte-slice pool (fresh Pool and the global one; Get / Put of exact, re-sliced-tail, foreign odd-capacity and empty slices / GC), "
+                     "a generated multi-goroutine Get/Put script, and a mixed ring-pool + byte-slice-pool machine whose ring writes force growth (which recycles storage through the byte-slice pool). "
+                     "Oracle: a ledger of memory ranges (handed-out ranges pairwise disjoint, every Get inside one returned range or fresh memory) plus canary patterns over the full capacity.")
+LEVEL_NOTE["C12"] = "Addresses are compared while the harness keeps every slice reachable; allocation sizes up to 2^20 (the size-class arithmetic up to 2^31 is C20); engine-level consequences are covered by the content oracles of C01/C02."
